@@ -162,7 +162,7 @@ pub fn run(o: &Opts) {
     {
         let mut seen: std::collections::HashMap<u32, String> = Default::default();
         let mut found = 0;
-        let mut hh = |s: &str| -> u32 { let mut x: u32 = 0; for b in s.bytes() { x = x.wrapping_mul(223).wrapping_add(b as u32); } x };
+        let hh = |s: &str| -> u32 { let mut x: u32 = 0; for b in s.bytes() { x = x.wrapping_mul(223).wrapping_add(b as u32); } x };
         while found < 3 && seen.len() < 400_000 {
             let s: String = (0..7).map(|_| (b'a' + rng.gen_range(0..26)) as char).collect();
             let v = hh(&s);
